@@ -248,6 +248,8 @@ def multi_document(faults):
         lines += meas("m_wrongend", end="WRONG_TAG")
     if "deprecated" in f and not toonew:
         lines += meas("m_deprecated", extra=["ARRAY_SIZE 3"])
+        # ... twice in a row: every use is diagnosed
+        lines += meas("m_deprecated_again", extra=["ARRAY_SIZE 4"])
     lines.append("  /end MODULE")
     lines.append("/end PROJECT")
     if "trailing" in f:
